@@ -286,6 +286,17 @@ Proof.
   - destruct IH as (r0 & D & E). exists ((k, v') :: r0). split; constructor; simpl in *; auto.
 Qed.
 
+Lemma keys_distinct kt (qs : list (sval * sval)) (kxs : list (bytes * tomlval)) :
+  Forall2 (fun q kx => key_text kt (fst q) = Some (fst kx)) qs kxs -> NoDup (map fst kxs) ->
+  ForallOrdPairs (fun p q => sval_beq (fst p) (fst q) = false) qs.
+Proof.
+  induction 1 as [|q kx l1 l2 Hq Ht IH]; intro Hnd; [constructor|].
+  simpl in Hnd. inversion Hnd as [|? ? Hnot Hnd']; subst. constructor; [|apply IH; exact Hnd'].
+  rewrite Forall_forall. intros q' Hin.
+  destruct (Forall2_In_l _ _ _ _ Ht Hin) as (kx' & Hin' & Hq').
+  eapply key_text_distinct; [exact Hq|exact Hq'|]. intro Heq. apply Hnot. rewrite Heq. apply in_map. exact Hin'.
+Qed.
+
 Lemma tvrt_map kt vt : TVRT vt -> TVRT (TMap kt vt).
 Proof.
   intros IHv v x Hty Hsup H. destruct v; try (simpl in Hty; discriminate Hty).
@@ -338,12 +349,130 @@ Proof.
   assert (Hdist : ForallOrdPairs (fun p q => sval_beq (fst p) (fst q) = false) es1).
   { assert (Ht : Forall2 (fun q kx => key_text kt (fst q) = Some (fst kx)) es1 bt).
     { clear - D1. induction D1 as [|kx q l l' (_ & _ & C) _ IH]; constructor; assumption. }
-    pose proof (bsorted_nodup _ Hsorted) as Hnd'. clear - Ht Hnd'.
-    revert Hnd'. induction Ht as [|q kx es' xs Hq Ht IH]; intro Hnd; [constructor|].
-    simpl in Hnd. inversion Hnd as [|? ? Hnot Hnd']; subst. constructor; [|apply IH; exact Hnd'].
-    rewrite Forall_forall. intros q' Hin.
-    destruct (Forall2_In_l _ _ _ _ Ht Hin) as (kx' & Hin' & Hq').
-    eapply key_text_distinct; [exact Hq|exact Hq'|]. intro Heq. apply Hnot. rewrite Heq. apply in_map. exact Hin'. }
+    apply (keys_distinct kt es1 bt Ht). apply bsorted_nodup. exact Hsorted. }
   rewrite (smap_of_pairs_distinct es1 Hdist).
   exists (SMap es1). split; [reflexivity|]. apply (eq_map es es1 es0); [apply Permutation_sym; exact Hperm1|exact E0].
 Qed.
+
+Theorem tv_roundtrip_supported : forall t, TVRT t.
+Proof.
+  induction t using ty_ind2 with (Q := TVRTV); unfold TVRT, TVRTV in *.
+  - intros v x Hty Hs Hser. destruct v; simpl in Hser; try discriminate Hser. injection Hser as <-.
+    eexists; split; [reflexivity|constructor].
+  - intros v x Hty Hs Hser. destruct v; simpl in Hser; try discriminate Hser. simpl in Hty.
+    destruct (tv_ser_int w z) as [i|] eqn:E; [|discriminate Hser]. injection Hser as <-.
+    destruct (tv_ser_exact w z i Hty E) as [-> _]. simpl.
+    rewrite (de_in_range_ok w z); [eexists; split; [reflexivity|constructor]| |exact Hty].
+    destruct w; try reflexivity; discriminate E.
+  - intros v x Hty Hs Hser. destruct w; destruct v; simpl in Hser; try discriminate Hser; injection Hser as <-; simpl in Hty.
+    + simpl. eexists; split; [reflexivity|]. constructor. apply f32_roundtrip. apply N.ltb_lt. exact Hty.
+    + simpl. eexists; split; [reflexivity|]. constructor. apply f64_roundtrip.
+  - intros v x Hty Hs Hser. destruct v; simpl in Hser; try discriminate Hser. injection Hser as <-. simpl in Hty.
+    simpl. rewrite (de_char_encode c Hty). eexists; split; [reflexivity|constructor].
+  - intros v x Hty Hs Hser. destruct v; simpl in Hser; try discriminate Hser. injection Hser as <-.
+    eexists; split; [reflexivity|constructor].
+  - (* Datetime: written as { FIELD = "text" } *)
+    intros v x Hty Hs Hser. destruct v; simpl in Hser; try discriminate Hser. injection Hser as <-. simpl in Hty.
+    apply andb_true_iff in Hty as [Hr Hk]. cbn [tv_de tv_de_datetime]. rewrite bytes_eqb_refl. unfold de_dt_str.
+    rewrite (print_parse_std d Hr). simpl. unfold dt_kind_check. rewrite Hk. eexists; split; [reflexivity|constructor].
+  - intros v x Hty Hs Hser. destruct v; simpl in Hser; discriminate Hser.
+  - intros v x Hty Hs Hser. destruct v; simpl in Hser; discriminate Hser.
+  - intros v x Hty Hs Hser. destruct v; try (simpl in Hser; discriminate Hser).
+    rewrite ts_opt_some in Hser. rewrite ht_opt_some in Hty.
+    destruct (IHt v x Hty) as (v' & D & E); [intros e U; apply (Hs e); apply u_some; exact U|exact Hser|].
+    rewrite td_opt, D. eexists; split; [reflexivity|constructor; exact E].
+  - intros v x Hty Hs Hser. destruct v; try (simpl in Hser; discriminate Hser).
+    rewrite ts_seq in Hser. rewrite ht_seq in Hty. apply rmap_ok in Hser as (xs & Hxs & ->).
+    destruct (tvrt_list t IHt vs xs Hty) as (vs' & D & E); [|exact Hxs|].
+    { intros a Ha e U. apply (Hs e). eapply u_seq; eassumption. }
+    rewrite td_seq, D. eexists; split; [reflexivity|constructor; exact E].
+  - intros v x Hty Hs Hser. destruct v; try (simpl in Hser; discriminate Hser).
+    rewrite ts_tuple in Hser. rewrite ht_tuple in Hty. apply rmap_ok in Hser as (xs & Hxs & ->).
+    destruct (tvrt_tuple ts H vs xs Hty) as (_ & vs' & D & E); [|exact Hxs|].
+    { intros i t v H1 H2 e U. apply (Hs e). eapply u_tuple; eassumption. }
+    rewrite td_tuple, D. eexists; split; [reflexivity|constructor; exact E].
+  - apply tvrt_map. exact IHt2.
+  - intros v x Hty Hs Hser. destruct v; try (simpl in Hser; discriminate Hser).
+    rewrite ht_struct in Hty. apply andb_true_iff in Hty as [Hty Hvs]. apply andb_true_iff in Hty as [_ Hnd].
+    rewrite ts_struct in Hser. apply rmap_ok in Hser as (ps & Hps & ->).
+    destruct (tvrt_struct_fields fs H vs ps Hnd Hvs) as (es & -> & vs' & D & E); [|exact Hps|].
+    { intros i f t v e H1 H2 U. apply (Hs e). eapply u_struct; eassumption. }
+    rewrite td_struct, D. eexists; split; [reflexivity|constructor; exact E].
+  - intros v x Hty Hs Hser. destruct v; try (simpl in Hser; discriminate Hser).
+    rewrite ts_newtype in Hser. rewrite ht_newtype in Hty.
+    destruct (IHt v x Hty) as (v' & D & E); [intros e U; apply (Hs e); apply u_newtype; exact U|exact Hser|].
+    rewrite td_newtype, D. eexists; split; [reflexivity|constructor; exact E].
+  - intros v x Hty Hs Hser. destruct v; try (simpl in Hser; discriminate Hser).
+    rewrite ts_tuple_struct in Hser. rewrite ht_tuple_struct in Hty. apply rmap_ok in Hser as (xs & Hxs & ->).
+    destruct (tvrt_tuple ts H vs xs Hty) as (_ & vs' & D & E); [|exact Hxs|].
+    { intros i t v H1 H2 e U. apply (Hs e). eapply u_tuple_struct; eassumption. }
+    rewrite td_tuple_struct, D. eexists; split; [reflexivity|constructor; exact E].
+  - intros v x Hty Hs Hser. destruct v as [| | | | | | | | | | | | | |i p]; try (simpl in Hser; discriminate Hser).
+    rewrite ht_enum in Hty. apply andb_true_iff in Hty as [Hnd Hp]. apply nodup_bytes_NoDup in Hnd.
+    rewrite ts_enum in Hser.
+    destruct (pick_cases (tv_variant p) (Err EBadCase) vs i) as [([vn var] & Hn & E)|[_ E]]; rewrite E in Hser; [|discriminate].
+    rewrite (pick_nth _ _ _ _ _ Hn) in Hp. simpl in Hp.
+    assert (HQ : forall q y, has_type_variant_b var q = true -> (forall e, ~ unsupported_variant var q e) ->
+                             tv_payload var q = Ok y -> exists q', tv_de_payload var y = Ok q' /\ sval_eq q q').
+    { rewrite Forall_forall in H. apply (H (vn, var)). eapply nth_error_In; exact Hn. }
+    assert (Hsv : forall e, ~ unsupported_variant var p e).
+    { intros e U. apply (Hs e). eapply u_variant; eassumption. }
+    unfold tv_variant in Hser. simpl in Hser.
+    destruct var as [|tv|tsv|fsv].
+    + apply htv_unit in Hp. subst p. injection Hser as <-.
+      rewrite td_enum_str, (find_name_nth _ _ _ _ _ _ _ Hnd Hn). simpl.
+      eexists; split; [reflexivity|constructor; constructor].
+    + apply rmap_ok in Hser as (y & Hy & ->). destruct (HQ p y Hp Hsv Hy) as (p' & D & Ep).
+      rewrite td_enum_tab, (find_name_nth _ _ _ _ _ _ _ Hnd Hn). rewrite D. simpl.
+      eexists; split; [reflexivity|constructor; exact Ep].
+    + apply rmap_ok in Hser as (y & Hy & ->). destruct (HQ p y Hp Hsv Hy) as (p' & D & Ep).
+      rewrite td_enum_tab, (find_name_nth _ _ _ _ _ _ _ Hnd Hn). rewrite D. simpl.
+      eexists; split; [reflexivity|constructor; exact Ep].
+    + apply rmap_ok in Hser as (y & Hy & ->). destruct (HQ p y Hp Hsv Hy) as (p' & D & Ep).
+      rewrite td_enum_tab, (find_name_nth _ _ _ _ _ _ _ Hnd Hn). rewrite D. simpl.
+      eexists; split; [reflexivity|constructor; exact Ep].
+  - intros p x Hty Hs Hser. simpl in Hser. discriminate Hser.
+  - intros p x Hty Hs Hser. rewrite tp_newtype in Hser. rewrite htv_newtype in Hty.
+    rewrite tdp_newtype. apply IHt; [exact Hty| |exact Hser]. intros e U. apply (Hs e). apply uv_newtype. exact U.
+  - intros p x Hty Hs Hser. destruct p; try (simpl in Hty; discriminate Hty).
+    rewrite tp_tuple in Hser. rewrite htv_tuple in Hty. apply rmap_ok in Hser as (xs & Hxs & ->).
+    destruct (tvrt_tuple ts H vs xs Hty) as (Hl & vs' & D & E); [|exact Hxs|].
+    { intros i t v H1 H2 e U. apply (Hs e). eapply uv_tuple; eassumption. }
+    rewrite tdp_tuple, Hl, Nat.eqb_refl, D. eexists; split; [reflexivity|constructor; exact E].
+  - intros p x Hty Hs Hser. destruct p; try (simpl in Hty; discriminate Hty).
+    rewrite htv_struct in Hty. apply andb_true_iff in Hty as [Hnd Hvs].
+    rewrite tp_struct in Hser. apply rmap_ok in Hser as (ps & Hps & ->).
+    destruct (tvrt_struct_fields fs H vs ps Hnd Hvs) as (es & -> & vs' & D & E); [|exact Hps|].
+    { intros i f t v e H1 H2 U. apply (Hs e). eapply uv_struct; eassumption. }
+    rewrite tdp_struct, D. eexists; split; [reflexivity|constructor; exact E].
+Qed.
+
+(* Value::try_from on a value without unsupported shapes: accepted, and try_into gives it back *)
+Theorem tryfrom_supported t v : has_type v t -> supported t v ->
+  exists out, tv_ser t v = Ok out /\ exists v', tv_de t out = Ok v' /\ sval_eq v v'.
+Proof.
+  intros Hty Hs. destruct (tv_supported_ok t v Hty Hs) as (x & Hx). exists x. split; [exact Hx|].
+  apply (tv_roundtrip_supported t v x Hty Hs Hx).
+Qed.
+
+(* Table::try_from: whatever it accepts is what Value::try_from builds *)
+Theorem tv_table_is_value t : forall v out, tv_ser_table t v = Ok out -> tv_ser t v = Ok out.
+Proof.
+  induction t using ty_ind2 with (Q := fun _ => True); try exact I; intros v out Hser;
+    try (destruct v; simpl in Hser; discriminate Hser).
+  - (* TInt *) destruct v; simpl in Hser; try discriminate Hser. destruct (ser_method_of w); discriminate Hser.
+  - (* TDatetime *) destruct v; simpl in Hser; try discriminate Hser. exact Hser.
+  - (* TOpt *) destruct v; try (simpl in Hser; discriminate Hser). rewrite ts_opt_some. apply IHt. exact Hser.
+  - (* TMap *) destruct v; try (simpl in Hser; discriminate Hser). exact Hser.
+  - (* TStruct *) destruct v; try (simpl in Hser; discriminate Hser). exact Hser.
+  - (* TNewtype *) destruct v; try (simpl in Hser; discriminate Hser). rewrite ts_newtype. apply IHt. exact Hser.
+  - destruct v as [| | | | | | | | | | | | | |i p]; try (simpl in Hser; discriminate Hser).
+    simpl in Hser.
+    match type of Hser with pick ?f ?d vs i = _ => destruct (pick_cases f d vs i) as [([vn var] & Hn & E)|[_ E]]; rewrite E in Hser end;
+      [|discriminate Hser].
+    simpl in Hser. destruct var; try discriminate Hser. exact Hser.
+Qed.
+
+Theorem table_tryfrom_roundtrip t v out : has_type v t -> supported t v -> tv_ser_table t v = Ok out ->
+  exists v', tv_de t out = Ok v' /\ sval_eq v v'.
+Proof. intros Hty Hs H. apply (tv_roundtrip_supported t v out Hty Hs). apply tv_table_is_value. exact H. Qed.
